@@ -33,7 +33,7 @@ class C03(Prop):
     floors = {'quick': (300, 80), 'thorough': (5000, 1500)}
     must_reach = ['stl/pastifier:StlPastifier.pastify']
     quick_cases = 1500
-    thorough_cases = 200000
+    thorough_cases = 1500000
 
     def gen(self, rng, ctx):
         want_future = rng.random() < 0.85
